@@ -37,7 +37,7 @@ def main():
             rows.append((name, c, verdict, ", ".join(clauses)[:300], f"demo exit {demo.returncode}", f"{time.time() - t0:.0f}s"))
             print(rows[-1], flush=True)
         sh(f"git -C /repo worktree remove --force {WT}; git -C /repo worktree prune")
-    with open(os.path.join(SEEDED, "RESULTS.md"), "w") as f:
+    with open(os.path.join(SEEDED, "RESULTS.md") if not only else "/tmp/RESULTS.partial.md", "w") as f:
         f.write("# Seeded changes x checks (quick tier, seed 0)\n\nProduced by tools/all_mutants.py; every change is applied in a scratch "
                 "worktree and the checks are pointed at it through PYTHONPATH.\n\n| seeded change | check | result | failing clauses | demo | time |\n|---|---|---|---|---|---|\n")
         for r in rows:
